@@ -117,8 +117,8 @@ pub fn run(ctx: &Ctx) -> Report {
         "T = parse(generated XML) into RcDom (generator of C16: namespaced element AST with declarations, shadowing, un-declaration, unbound prefixes, attribute and text strings with & < > \" ' CR (via &#13;) TAB LF, comments/PIs with '-'/'?' edge shapes, CDATA, mismatched end tags); s = xml5ever::serialize::serialize(T); T' = parse(s); the canonical dumps (prefix, local name and namespace of elements and attributes, attribute values, text, comments, PIs; doctype excluded) must be equal. Non-trivial: T contains a prefixed attribute, or an unprefixed child whose namespace differs from its unprefixed parent's, or a character that needs escaping; distinct by hash of T's dump.",
     );
     rep.assume("trees are those reachable by parsing; doctype ids are outside the serializer API and excluded");
-    report_known(ctx, &mut rep, &|v| replay(ctx, v));
-    run_regressions(ctx, &mut rep, &|v| replay(ctx, v));
+    report_known(ctx, &mut rep, &|v| replay(&ctx.strict_clone(), v));
+    run_regressions(ctx, &mut rep, &|v| replay(&ctx.strict_clone(), v));
     let out = run_random(ctx.seed, ctx.tier.pick(400_000, 20_000_000), 1500, decode, check);
     rep.absorb(out);
     for l in ["prefixed attribute", "default namespace changes between parent and child", "text/attribute needs escaping"] {
